@@ -22,7 +22,27 @@ func famRawClient(w *World) {
 	w.drawSchedule(true)
 	w.linkDefaults()
 	topo := scn(3) // 0: raw -> server, 1: raw -> relay -> server, 2: raw -> relay -> raw destination
-	srv := w.addNode(NodeOpts{Name: "s0", Service: "svc0", Host: "10.0.2.1", Port: 5000, Conn: w.connOptsBig()})
+	// slow reader (direct topology only): the raw client stops reading until the very
+	// deadline of its first request, whose multi-fragment response is by then stuck in a
+	// one- or two-frame send buffer behind a 4 KiB socket buffer with the handler blocked
+	// handing over a fragment - the send completes and the deadline fires at one instant
+	slowAlone := scnChance(2, 3)
+	slow := topo == 0 && scnChance(1, 2)
+	sconn := w.connOptsBig()
+	if slow {
+		if simrt.Cur().Cfg().LagWakePM < 150 && scnChance(2, 3) {
+			simrt.Cur().SetLateWake(300) // and the server's goroutines may be slow to get going once woken
+		}
+		sconn.SendBufferSize = 1 + scn(2)
+		w.Net.Fired["buf.small"]++
+		w.linkHook = func(l *Link) {
+			for d := 0; d < 2; d++ {
+				l.SetCapacity(d, 4<<10)
+				l.SetLatency(d, 0, 0) // the backlog drains within one simulated instant, and the server's deadline is the moment of sending plus the ttl
+			}
+		}
+	}
+	srv := w.addNode(NodeOpts{Name: "s0", Service: "svc0", Host: "10.0.2.1", Port: 5000, Conn: sconn})
 	srv.Ch.Register(&echoHandler{w: w, n: srv}, "echo")
 	target := srv.HostPort
 	var spy *SpyRelayHost
@@ -107,7 +127,7 @@ func famRawClient(w *World) {
 		service = "rawsvc"
 		spy.Add(service, hp)
 	}
-	w.describe("rawclient topo=%d relayMax=%v", topo, maxTO)
+	w.describe("rawclient topo=%d relayMax=%v slow-reader=%v", topo, maxTO, slow)
 
 	rp := w.newRawPeer("raw0", "10.0.9.1")
 	rc, err := rp.Dial(target)
@@ -127,6 +147,8 @@ func famRawClient(w *World) {
 		cancel  time.Duration
 		ttl     time.Duration
 		timeout bool // the destination will not finish within the (clamped) ttl
+		sent    bool
+		sentAt  time.Duration // when the first frame (which carries the ttl) was written
 	}
 	var reqs []*reqPlan
 	maxTTL := time.Duration(0)
@@ -169,12 +191,29 @@ func famRawClient(w *World) {
 		if scnChance(1, 3) {
 			rec.Spec.Rs2, rec.Spec.Rs3 = scn(3000), drawSize(150000)
 		}
+		if slow && i == 0 {
+			rec.Spec.Mode = []string{"echo", "chunky"}[scn(2)]
+			rec.Spec.Delay = 0
+			rec.Spec.Rs2, rec.Spec.Rs3 = scn(3000), 70000+scn(200000)
+			if scnChance(3, 4) {
+				// ... so that the fragment the handler is blocked on is the response's last:
+				// one frame with the writer, SendBufferSize frames queued, one more in hand
+				rec.Spec.Rs3 = (1+sconn.SendBufferSize)*65400 + 1000 + scn(60000)
+			}
+			if ttl < 20*w.Grid {
+				ttl += 20 * w.Grid
+			}
+		}
 		p := &reqPlan{id: uint32(i + 1), tag: tag, at: time.Duration(scn(10)) * w.Grid, ttl: ttl}
+		if slow && i > 0 && slowAlone {
+			// the other requests come once the first one's fate is sealed
+			p.at += reqs[0].at + reqs[0].ttl
+		}
 		if topo == 2 {
 			dp := &destPlan{delay: delay, kind: scn(6)}
 			plans[tag] = dp
 		}
-		if scnChance(1, 5) {
+		if scnChance(1, 5) && !(slow && i == 0) {
 			p.cancel = time.Duration(scn(30)) * w.Grid
 		}
 		arg2 := append([]byte(rec.cmd()+"\n"), payload(tag, 2, scn(2000))...)
@@ -198,8 +237,14 @@ func famRawClient(w *World) {
 		p := p
 		fs = append(fs, func() {
 			sleep(p.at)
-			for _, b := range p.frames {
+			for bi, b := range p.frames {
 				sendQ.do(func() { rc.Send(b) })
+				if bi == 0 {
+					p.sentAt = simrt.Elapsed()
+					p.sent = true
+					// the server's deadline for this request: a target for injected stalls
+					simrt.AddInstant(time.Now().Add(p.ttl / time.Millisecond * time.Millisecond))
+				}
 				if len(p.frames) > 1 && app(3) == 2 {
 					sleep(time.Duration(app(3)) * w.Grid)
 				}
@@ -213,7 +258,19 @@ func famRawClient(w *World) {
 		})
 	}
 	done := false
+	slowJit := time.Duration(scnPick(-1, -1, -2, -3, 0, 0, 1)) * w.Grid
 	fs = append(fs, func() {
+		if slow {
+			for !reqs[0].sent {
+				sleep(w.Grid)
+			}
+			// (the ttl travels in whole milliseconds)
+			if d := reqs[0].sentAt + reqs[0].ttl/time.Millisecond*time.Millisecond + slowJit - simrt.Elapsed(); d > 0 {
+				sleep(d)
+			}
+			w.event("reader-resumes", "slow reader resumes (jitter %v around the deadline of q1)", slowJit)
+			w.probe("rawclient.reader-resumed-at-deadline")
+		}
 		for !done {
 			if _, err := rc.ReadFrame(100 * time.Millisecond); err != nil {
 				if ne, ok := err.(*netError); !ok || !ne.timeout {
@@ -268,7 +325,7 @@ func famRawClient(w *World) {
 							w.probe("C10.tombstone-limit-overflowed")
 							continue
 						}
-						if simrt.Cur().StallTime >= 3*time.Second {
+						if simrt.Cur().Stalled() >= 3*time.Second {
 							// a goroutine of the relay was held back for longer than the relay's tombstone
 							// period: by then the relay has rightfully forgotten the call, and a late
 							// fragment of it is answered "not found" (still exactly one terminal frame)
